@@ -4,6 +4,7 @@ No Mathlib.  Integer draws (`torch.randint`) and the shuffling permutations (`ar
 inputs; the model is the index construction, the eligibility rows and the processing-time formula.
 -/
 import Rl4co.Gen.Basic
+import Rl4co.Generated.Params
 namespace Rl4co.Gen.Sched
 
 open Rl4co.Gen
@@ -29,9 +30,12 @@ nearest integer = `⌊(2·mean·num + den) / (2·den)⌋` -/
 def roundFrac (mean : Int) (num den : Nat) : Int := (2 * mean * num + den) / (2 * den : Int)
 
 /-- FJSP `same_mean_per_op`: `low = max(min_pt, round(0.8·mean))`, `high = min(max_pt, round(1.2·mean)) + 1`,
-`proc = raw % (high − low) + low` (python/torch `%` of a non-negative `raw`) -/
-def fjspLow (minPt mean : Int) : Int := max minPt (roundFrac mean 4 5)
-def fjspHigh (maxPt mean : Int) : Int := min maxPt (roundFrac mean 6 5) + 1
+`proc = raw % (high − low) + low` (python/torch `%` of a non-negative `raw`).
+The spread `0.2 = sn/sd` is extracted from the source (`Params.genFjspSpread`): factors `(sd − sn)/sd` and `(sd + sn)/sd`. -/
+def spreadNum : Nat := Params.genFjspSpread.1.toNat
+def spreadDen : Nat := Params.genFjspSpread.2
+def fjspLow (minPt mean : Int) : Int := max minPt (roundFrac mean (spreadDen - spreadNum) spreadDen)
+def fjspHigh (maxPt mean : Int) : Int := min maxPt (roundFrac mean (spreadDen + spreadNum) spreadDen) + 1
 def fjspProc (minPt maxPt mean : Int) (raw : Nat) : Int :=
   (raw : Int) % (fjspHigh maxPt mean - fjspLow minPt mean) + fjspLow minPt mean
 
